@@ -119,6 +119,23 @@ def _strip_doc(body: List[ast.stmt]) -> List[ast.stmt]:
 
 
 # ----------------------------------------------------------------------------- inlining one call
+def _expr_form(h: "Helper") -> Optional[ast.AST]:
+    """The helper as one expression of its parameters (straight-line single-assignment temporaries + return), or None."""
+    body = _strip_doc(h.node.body)
+    if not body or not isinstance(body[-1], ast.Return) or body[-1].value is None:
+        return None
+    temps: Dict[str, ast.AST] = {}
+    params = {a.arg for a in h.node.args.args} | {a.arg for a in h.node.args.kwonlyargs}
+    for st in body[:-1]:
+        if not (isinstance(st, ast.Assign) and len(st.targets) == 1 and isinstance(st.targets[0], ast.Name)):
+            return None
+        nm = st.targets[0].id
+        if nm in temps or nm in params:
+            return None
+        temps[nm] = _Rename({}, dict(temps)).visit(copy.deepcopy(st.value))
+    return _Rename({}, dict(temps)).visit(copy.deepcopy(body[-1].value))
+
+
 class _Rename(ast.NodeTransformer):
     def __init__(self, names: Dict[str, str], subst: Dict[str, ast.AST]):
         self.names, self.subst = names, subst
@@ -213,7 +230,76 @@ class Inliner:
         n = 0
         self.current = qual
         n += self._block(fn.body, fn, module, cls, qual)
+        n += self._expressions(fn, module, cls, qual)
         return n
+
+    def _expressions(self, fn, module, cls, qual) -> int:
+        """Calls left in positions where statements cannot be hoisted (comprehensions, conditional expressions):
+        replace by the helper's expression form when it has one."""
+        n = 0
+        for _ in range(20):
+            hit = None
+            for node in ast.walk(fn):
+                if node is fn or not isinstance(node, ast.Call):
+                    continue
+                h, recv = self._callee(node, module, cls)
+                if h is None or h.reason is not None or h.node is fn:
+                    continue
+                ef = _expr_form(h)
+                if ef is None:
+                    continue
+                bound = self._bind(node, h, recv)
+                if bound is None:
+                    continue
+                uses = {}
+                for x in ast.walk(ef):
+                    if isinstance(x, ast.Name) and x.id in bound:
+                        uses[x.id] = uses.get(x.id, 0) + 1
+                if any(uses.get(p, 0) > 1 and not _simple(a) for p, a in bound.items()):
+                    continue
+                hit = (node, _Rename({}, bound).visit(ef))
+                self.log.append((qual, h.qual))
+                break
+            if hit is None:
+                break
+            _replace_node(fn, hit[0], hit[1])
+            ast.fix_missing_locations(fn)
+            n += 1
+        return n
+
+    def _bind(self, call: ast.Call, h: "Helper", recv) -> Optional[Dict[str, ast.AST]]:
+        hn = h.node
+        params = [a.arg for a in hn.args.args] + [a.arg for a in hn.args.kwonlyargs]
+        pos = [a.arg for a in hn.args.args]
+        defaults: Dict[str, ast.AST] = {}
+        for a, d in zip(reversed(hn.args.args), reversed(hn.args.defaults)):
+            defaults[a.arg] = d
+        for a, d in zip(hn.args.kwonlyargs, hn.args.kw_defaults):
+            if d is not None:
+                defaults[a.arg] = d
+        bound: Dict[str, ast.AST] = {}
+        if any(isinstance(a, ast.Starred) for a in call.args) or any(k.arg is None for k in call.keywords):
+            return None
+        if h.kind in ("method", "classmethod") and h.cls is not None:
+            if recv is None:
+                return None
+            bound[pos[0]] = recv
+            pos = pos[1:]
+        if len(call.args) > len(pos):
+            return None
+        for p, a in zip(pos, call.args):
+            bound[p] = a
+        for k in call.keywords:
+            if k.arg not in params or k.arg in bound:
+                return None
+            bound[k.arg] = k.value
+        for p in params:
+            if p not in bound:
+                if p in defaults:
+                    bound[p] = defaults[p]
+                else:
+                    return None
+        return bound
 
     def _block(self, stmts: List[ast.stmt], fn, module, cls, qual) -> int:
         n = 0
